@@ -39,7 +39,7 @@ ASSUMPTIONS = [
 ]
 FLOORS = {
     "quick": {"weight_identities": 250, "lml_checks": 80, "exact_instances": 8, "sampled_instances": 3, "site_param_matches": 250, "rejuvenate_weight_checks": 20},
-    "thorough": {"weight_identities": 5000, "lml_checks": 1000, "exact_instances": 80, "sampled_instances": 20, "site_param_matches": 4000, "rejuvenate_weight_checks": 200},
+    "thorough": {"weight_identities": 3000, "lml_checks": 800, "exact_instances": 80, "sampled_instances": 20, "site_param_matches": 3000, "rejuvenate_weight_checks": 200},
 }
 TIMEOUT_S = {"quick": 1800, "thorough": 7200}
 TAG_X, TAG_Y, TAG_Q, TAG_Z, TAG_RC, TAG_RU, TAG_MU, TAG_MN = 101, 102, 103, 104, 9101, 9102, 9001, 9002
